@@ -14,7 +14,8 @@ META = {
     "two directory versions and writability symbolic. On every path the second reply equals B's fresh rendering of the version at time m iff "
     "t-m<T (and the cache file is then not rewritten), else B's fresh rendering of the current version. Because the first request's post-state "
     "is the general cache state (birth time, payload = listing at birth), this is the inductive step for histories of any length. A QF_FP lemma "
-    "shows the float subtraction cannot make a stale entry look fresh.",
+    "shows the float subtraction cannot make a stale entry look fresh. A request for another spelling of the directory ('/d' + symbolic tail over / . x backslash) "
+    "followed by a request for '/d' within the lifetime returns the directory's own listing (no foreign listing can be planted in its cache file).",
     "trusted": "CrossHair/z3; cvc5 for the FP lemma; MemVFS/PickleStub/Clock stand for the OS, pickle and time.",
     "explanation": "Two-step symbolic history (inductive step of the cache state machine) + unbounded-integer freshness obligation + FP lemma.",
     "assumptions": [
@@ -117,6 +118,51 @@ def body_history(a: int, b: int, vv: int, m: int, dt: int, T: int, writable: boo
         if v == 3:
             # independent of the reference table: the abstract that now exists must be in the regenerated listing
             hx.require(b"An abstract added later" in r2, "C10:regenerated-listing-misses-current-metadata", lambda: "read by %s: %r" % (dl.PROTO_NAMES[b], r2[:200]))
+    return True
+
+
+class DotVFS(mv.MemVFS):
+    """MemVFS that, like the OS, resolves `.` path components (and repeated / trailing slashes), and
+    names files it opens by their resolved path: `/d/.` IS `/d`."""
+
+    def _norm(self, selector):
+        parts = [c for c in selector.split("/") if c not in ("", ".")]
+        return "/" + "/".join(parts)
+
+    def open(self, selector, mode, errors=None):
+        f = mv.MemVFS.open(self, selector, mode, errors)
+        f.selector = self._norm(selector)
+        return f
+
+
+def body_alias(a: int, b: int, tail: str) -> bool:
+    """A request for another spelling of the directory (`/d` + tail) must not change what a request
+    for `/d` returns within the cache lifetime: whatever the first request leaves in the directory's
+    cache file is a listing of THAT directory."""
+    cfg = dl.config({("handlers.dir.DirHandler", "cachetime"): 100})
+    vfs = DotVFS(cfg, _nodes(0))
+    ps = dl.PickleStub()
+    dirmod = dl.install_dir_env(vfs, 50, ps)
+
+    def on_write(sel, chunks):
+        vfs.nodes[vfs._norm(sel)] = mv.File(b"PICKLE", mtime=dirmod.time.t)
+
+    vfs.on_write = on_write
+    hx.silence_logging()
+    try:
+        w = hx.ListWriter()
+        try:
+            dl.make_protocol(a, "/d" + tail, cfg, w).handle()
+        except AssertionError:
+            return True  # not a request this protocol's framing accepts
+        hx.reset_lazies()
+        dirmod.time.t = 51
+        r2 = _request(b, cfg, vfs)
+    finally:
+        dl.restore_dir_env()
+    hx.reach()
+    hx.require(r2 == REF[(b, 0)], "C10:listing-after-request-for-another-spelling-of-the-directory",
+               lambda: "first request %s for %r, then %s for '/d': %r instead of %r" % (dl.PROTO_NAMES[a], "/d" + tail, dl.PROTO_NAMES[b], r2[:200], REF[(b, 0)][:200]))
     return True
 
 
@@ -268,4 +314,9 @@ def obligations(tier, seed):
             timeout=240 if tier == "quick" else 600,
             functions=["handlers.dir.DirHandler.prepare/loadcache/savecache/getdirlist", "protocols.*.handle/writedir/renderobjinfo"],
         ))
+    for a in ((0, 2, 4) if tier == "quick" else range(7)):
+        obs.append(Ob(id="C10.7-alias[%s]" % dl.PROTO_NAMES[a], body="harness.C10:body_alias", sig="a: int, b: int, tail: str",
+                      pre=["a == %d" % a, "b == 0" if tier == "quick" else "0 <= b <= 6", "len(tail) <= 2", "all(c in '/.x' + chr(92) for c in tail)"], timeout=300 if tier == "quick" else 900,
+                      desc="a %s request for another spelling of the directory selector ('/d' + symbolic tail) followed, within the lifetime, by a request for '/d': the second listing is the directory's listing (the first request cannot plant a foreign listing in the directory's cache file)" % dl.PROTO_NAMES[a],
+                      bounds="|tail| <= 2 over {/ . x \\}; VFS resolves '.' components and slashes like the OS", functions=["handlers.dir.DirHandler.prepare/loadcache/savecache", "handlers.base.BaseHandler.isrequestsecure", "protocols.*.handle"]))
     return obs
